@@ -16,11 +16,11 @@ CLAIMED = {
  "C10": ("group-heavy history generation + exact multiset oracle over visible feeders", "§2 C10"),
  "C11": ("soft/hard group history generation + lower/upper bound oracle on soft slices and execution set", "§2 C11"),
  "C12": ("decorator-placement history generation + nearest-decorator model on provenance, verdicts and execution counts", "§2 C12"),
- "C05": ("exhaustive small-digraph enumeration + sampled digraphs against a Warshall reference (graph hook); generated cyclic histories judged against three graph readings, risky Invokes executed in a child process; thorough tier adds native coverage-guided fuzzing", "§2 C05"),
+ "C05": ("exhaustive small-digraph enumeration + sampled digraphs against a Warshall reference (graph hook); generated cyclic histories judged against three graph readings, risky Invokes executed in a child process", "§2 C05"),
  "C06": ("differential testing: generated history with a rejected registration vs the same history without it on a fresh container", "§2 C06"),
  "C07": ("fault-plan injection over generated histories + poisoned-token / retry / root-cause invariants on the execution log", "§2 C07"),
  "C13": ("failure-source injection (error, panic, dig rejections) over generated histories + error identity/classification oracle", "§2 C13"),
- "C14": ("grammar-based hostile-input generation (values, signatures, tags, options) + no-panic and no-trace differential oracle; thorough tier adds native coverage-guided fuzzing of the same generator and oracle", "§2 C14"),
+ "C14": ("grammar-based hostile-input generation (values, signatures, tags, options) + no-panic and no-trace differential oracle", "§2 C14"),
  "C15": ("metamorphic testing: equivalent re-encodings of every function's signature must give the same verdicts, executions and key-wise wiring", "§2 C15"),
  "C16": ("metamorphic testing: permuted registration blocks, moved scope creations and toggled DeferAcyclicVerification must give the same verdicts and wiring", "§2 C16"),
  "C17": ("differential testing: DryRun container vs normal container on the same generated history", "§2 C17"),
@@ -53,7 +53,7 @@ for p in props:
             "engine": "harness",
             "level_claimed": {"category": "exploration", "text": LEVEL_TEXT, "design_ref": ref},
             "level_note": MODEL_NOTE,
-            "technique": "property-based testing: " + tech})
+            "technique": "property-based testing: " + tech + "; thorough tier adds native coverage-guided fuzzing (go test -fuzz) of the same generator and oracle"})
     else:
         m["not_applicable"].append({"property_id": pid, "reason": "not claimed yet: its check is still being built (same technique: property-based testing / fuzzing)"})
 json.dump(m, open(os.path.join(ROOT, "MANIFEST.json"), "w"), indent=1)
